@@ -69,11 +69,13 @@ def scenarios():
         {"do": "command", "input": {"tool": "nope", "args": {}}},
         {"do": "unlinked", "input": {"tool": "ls", "args": {"path": "."}}},
         {"do": "unlinked", "input": {"tool": "bash", "args": {"command": "printf 'no newline'"}}},
+        # output, then silence: what the live subscriber holds must be in the log while the tool is still running
+        {"do": "unlinked", "input": {"tool": "bash", "args": {"command": "echo early; echo err >&2; sleep 3"}}, "quiet_after_ms": 700, "patience_ms": 1800},
     ]})
     # 2: tasks
     s.append({"id": "tasks", "script": [], "steps": [
         {"do": "task", "payload": {"tool": "bash", "args": {"command": "echo one; echo two >&2; printf 'é漢'; exit 2"}}},
-        {"do": "task", "payload": {"tool": "bash", "title": "t " + UNI, "args": {"command": "echo start; sleep 5"}}, "cancel_after_ms": 150},
+        {"do": "task", "payload": {"tool": "bash", "title": "t " + UNI, "args": {"command": "echo start; sleep 5"}}, "cancel_after_ms": 300, "patience_ms": 3000},
         {"do": "task", "payload": {"tool": "bash", "args": {"command": 12}}},
         {"do": "task", "payload": {"tool": "bash", "args": {"command": "echo x", "cwd": "no/such"}}},
     ]})
@@ -92,6 +94,19 @@ def scenarios():
         {"do": "thread_op", "path": "handoff", "body": {"title": "handoff", "summary_markdown": "sum " + UNI, "actor_id": "user", "origin": "verif"}, "switch": True},
         {"do": "message", "content": "m4 on the handoff thread"},
     ]})
+    threads_sc = s[-1]
+    for fk in ("drop_head", "drop_middle", "dup_tail", "keep_tail"):
+        c = copy.deepcopy(threads_sc)
+        c.update(id="threads-" + fk, sidecar_fault=fk)
+        del c["torn_sidecar"]
+        s.append(c)
+    # the sidecar is lost while the store keeps running; later appends re-create it
+    for at, name in ((2, "early"), (7, "late")):
+        c = copy.deepcopy(threads_sc)
+        c.update(id="threads-sidecar-lost-" + name)
+        c["steps"].insert(at, {"do": "drop_sidecar"})
+        del c["torn_sidecar"]
+        s.append(c)
     return s
 
 
@@ -136,9 +151,10 @@ def generated_scenarios(n, seed):
         {"checkpoint": {"action": "create", "label": "", "files": ["seed.txt"]}}, {"checkpoint": {"action": "create", "label": "cp " + UNI, "files": []}},
         {"checkpoint": {"action": "rewind", "id": "@ckpt"}}, {"checkpoint": {"action": "rewind", "id": "nope"}},
     ]
+    slow = {"do": "unlinked", "input": {"tool": "bash", "args": {"command": "echo early; echo err >&2; sleep 2"}}, "quiet_after_ms": 500, "patience_ms": 1200}
     tasks = [
         {"payload": {"tool": "bash", "args": {"command": "echo one; echo two >&2; printf 'é漢'; exit 2"}}},
-        {"payload": {"tool": "bash", "title": "t " + UNI, "args": {"command": "echo start; sleep 5"}}, "cancel_after_ms": 120},
+        {"payload": {"tool": "bash", "title": "t " + UNI, "args": {"command": "echo start; sleep 5"}}, "cancel_after_ms": 300, "patience_ms": 3000},
         {"payload": {"tool": "bash", "args": {"command": 12}}}, {"payload": {"tool": "bash", "args": None}}, {"payload": {"tool": "bash"}},
         {"payload": {"tool": "bash", "args": {"command": "true"}}},
         {"payload": {"tool": "bash", "args": {"command": "head -c 150000 /dev/zero | tr '\\000' x"}}},
@@ -167,7 +183,7 @@ def generated_scenarios(n, seed):
         steps, script, names = [], [], []
         nsteps = rnd.randint(4, 9)
         # every history starts with a prompt so that thread operations have a message to point at
-        kinds = ["message"] + [rnd.choice(["message", "message", "command", "command", "unlinked", "task", "thread_op", "thread_op"]) for _ in range(nsteps - 1)]
+        kinds = ["message"] + [rnd.choice(["message", "message", "command", "command", "unlinked", "task", "thread_op", "thread_op", "drop_sidecar"]) for _ in range(nsteps - 1)]
         for kd in kinds:
             if kd == "message":
                 nm, mk = rnd.choice(prompts)
@@ -175,9 +191,16 @@ def generated_scenarios(n, seed):
                 steps.append({"do": "message", "content": rnd.choice(["m", "m " + UNI, "line1\r\nline2", "x" * 5000])})
                 names.append(nm)
             elif kd in ("command", "unlinked"):
+                if kd == "unlinked" and rnd.random() < 0.15:
+                    steps.append(dict(slow))
+                    names.append("u:bash-slow")
+                    continue
                 c = rnd.choice(commands)
                 steps.append({"do": kd, "input": c})
                 names.append(kd[0] + ":" + (c.get("tool") or "ckpt-" + c["checkpoint"]["action"]))
+            elif kd == "drop_sidecar":
+                steps.append({"do": "drop_sidecar"})
+                names.append("drop_sidecar")
             elif kd == "task":
                 t = rnd.choice(tasks)
                 steps.append(dict(t, do="task"))
@@ -186,7 +209,8 @@ def generated_scenarios(n, seed):
                 o = rnd.choice(thread_ops)
                 steps.append(dict(o, do="thread_op"))
                 names.append(o["path"])
-        out.append({"id": f"gen-{seed}-{i}", "generated": True, "torn_sidecar": rnd.random() < 0.5, "config": {"stateless_history": rnd.random() < 0.5},
+        fk = rnd.choice([None, None, "tear_tail", "tear_tail", "drop_head", "drop_middle", "dup_tail", "keep_tail"])
+        out.append({"id": f"gen-{seed}-{i}", "generated": True, **({"sidecar_fault": fk} if fk else {}), "config": {"stateless_history": rnd.random() < 0.5},
                     "script": script, "steps": steps, "_names": names})
     return out
 
@@ -321,7 +345,8 @@ def judge_scenarios(v, sc, wd, thorough, tag="fid"):
                   "has_sidecar": st["sidecar"] is not None, "sidecar": [digest(f) for f in (st["sidecar"] or [])], "sidecar_settled": True,
                   "has_snapshot": st["snapshot"] is not None, "snapshot": [digest(f) for f in (st["snapshot"] or [])],
                   "seqs": [f.get("seq") for f in logf], "ended": bool(ended),
-                  "has_fault": "late_after_fault" in st, "late_after_fault": [digest(f) for f in st.get("late_after_fault", [])]}
+                  "has_fault": "late_after_fault" in st, "late_after_fault": [digest(f) for f in st.get("late_after_fault", [])],
+                  "quiet_live": [digest(f) for f in (st.get("quiet_live") or [])], "quiet_log": [digest(f) for f in (st.get("quiet_log") or [])]}
             events.append(ev)
             v.add_eval({"scenario": res["id"], "stream_kind": st["kind"], "n": len(logf)}, len(logf) >= 3)
             st["_ev"] = ev
@@ -344,8 +369,12 @@ def judge_scenarios(v, sc, wd, thorough, tag="fid"):
         st = by_case[cid]["streams"][sid]
         # say which frame differs
         detail = ""
-        copy_name = {"LiveIsLog": "live", "LateSubscriberIsLog": "late", "ReplayedIsRawLog": "log_replayed", "SidecarIsLog": "sidecar", "SnapshotIsLog": "snapshot", "LateSubscriberAfterTornSidecarIsLog": "late_after_fault"}.get(what)
-        if copy_name and st.get(copy_name) is not None:
+        copy_name = {"LiveIsLog": "live", "LateSubscriberIsLog": "late", "ReplayedIsRawLog": "log_replayed", "SidecarIsLog": "sidecar", "SnapshotIsLog": "snapshot", "LateSubscriberAfterSidecarFaultIsLog": "late_after_fault", "QuietLiveIsInLog": "quiet_live"}.get(what)
+        if what == "QuietLiveIsInLog":
+            have = {canon(f) for f in st.get("quiet_log") or []}
+            miss = [f.get("type") for f in st.get("quiet_live") or [] if canon(f) not in have]
+            detail = f": the stream was idle, yet {len(miss)} frame(s) its live subscriber holds are not in the log file after the wait: {miss[:5]}"
+        elif copy_name and st.get(copy_name) is not None:
             a, bb = st["log_raw"], st[copy_name]
             k = next((i for i in range(min(len(a), len(bb))) if canon(a[i]) != canon(bb[i])), min(len(a), len(bb)))
             if k < len(a) and k < len(bb):
@@ -371,9 +400,10 @@ def run(tier, seed):
     if "Same" not in r.violated:
         die_tool("Replicas (failing append) has no counterexample")
     # ---- scenarios: the three written ones (every reachable frame type) + generated histories
+    nwritten = len(scenarios())
     sc = scenarios() + generated_scenarios(500 if thorough else 30, seed)
     results, events, corpus, seen_kinds, nstreams = judge_scenarios(v, sc, wd, thorough)
-    v.cov["generated_histories"] = len(sc) - 3
+    v.cov["generated_histories"] = len(sc) - nwritten
     v.cov["generated_history_steps"] = sorted({n_ for c in sc for n_ in c.get("_names", [])})
     # frame types the scenarios cannot reach here (PTY control, same-session rewind, scheduler decision): written from their definitions
     def env(kind_, sk, n):
